@@ -1,4 +1,5 @@
 import VtProps.C12Full
+import VtProps.C12Tar
 /-!
 # C12 (pmtiles) at full strength — composition with the container model (C01 / C16)
 
